@@ -4,7 +4,6 @@ Property theorems only (helper lemmas live in `Theory/Batch.lean`).
 All statements are for every n ≥ 1, max_batch_size ≥ 1, device count ≥ 1 — no bound.
 -/
 import MdpaxV.Theory.Batch
-import MdpaxV.Theory.GenTie
 namespace MdpaxV.C18
 open MdpaxV
 
@@ -90,30 +89,6 @@ theorem unbatch_prepare {β : Type} (c : BatchCfg) (h : Valid c) (z : β) (xs : 
 example : Valid ⟨7, 3, 2⟩ ∧ bsz ⟨7, 3, 2⟩ = 3 ∧ nb ⟨7, 3, 2⟩ = 2 ∧ npad ⟨7, 3, 2⟩ = 5 := by decide
 example : unbatch ⟨7, 3, 2⟩ (map3 (· * 2) (prepare ⟨7, 3, 2⟩ 0 [1,2,3,4,5,6,7])) = [2,4,6,8,10,12,14] := by decide
 example : prepare ⟨7, 3, 2⟩ 0 [1,2,3,4,5,6,7] = [[[1,2,3],[4,5,6]],[[7,0,0],[0,0,0]]] := by decide
-
-/-- **tie by translation**: `BatchProcessor.__init__` *as written in /repo's source* (translated to `Gen.batchInit` by
-    harness/translate.py on every run) computes exactly the model's device count, batch size, batch count and padding, for
-    every number of states, maximum batch size and device count ≥ 1 (any `state_dim`).  Together with the theorems above this
-    makes the attribute clauses of C18 statements about the code's own arithmetic, not only about sampled executions. -/
-theorem init_code_eq_model (c : BatchCfg) (sd : Int) (h : Valid c) :
-    Gen.batchInit c.n sd c.maxbs c.dev = ((c.dev : Int), (bsz c : Int), (nb c : Int), npad c) :=
-  GenTie.batchInit_eq_model c sd h.2.2
-
-/-- consequently the attributes computed by the code are mutually consistent: slots = states + padding, padding ≥ 0,
-    1 ≤ batch_size ≤ max_batch_size, at least one batch, device count as requested -/
-theorem init_code_consistent (c : BatchCfg) (sd : Int) (h : Valid c) :
-    let r := Gen.batchInit c.n sd c.maxbs c.dev
-    r.1 = c.dev ∧ 1 ≤ r.2.1 ∧ r.2.1 ≤ c.maxbs ∧ 1 ≤ r.2.2.1 ∧ 0 ≤ r.2.2.2 ∧ r.1 * r.2.2.1 * r.2.1 = c.n + r.2.2.2 := by
-  simp only [init_code_eq_model c sd h]
-  have hb := bsz_bounds c h
-  have hs := slots_eq c h
-  refine ⟨trivial, by exact_mod_cast hb.1, by exact_mod_cast hb.2, by exact_mod_cast hs.2.2, hs.2.1, ?_⟩
-  have := hs.1
-  unfold slots at this
-  push_cast at this
-  exact this
-
-example : Gen.batchInit 10 3 4 2 = (2, 4, 2, 6) := by decide
 
 end MdpaxV.C18
 
